@@ -10,7 +10,11 @@
    - a raising call leaves the node state untouched (modelled by `run`).
    Instances for every operator modelled in DF/Agg.v and DF/GroupBy.v are stated in Props/C12.v. *)
 From Coq Require Import List ZArith QArith Qcanon Bool Lia.
-From SZ Require Import DF.Frames DF.Agg DF.GroupBy DF.AggProofs DF.GroupByProofs.
+From SZ Require Import DF.Frames.
+From SZ Require Import DF.Agg.
+From SZ Require Import DF.GroupBy.
+From SZ Require Import DF.AggProofs.
+From SZ Require Import DF.GroupByProofs.
 Import ListNotations.
 
 Section Resume.
